@@ -93,22 +93,25 @@ func c16R1R2(p *Prog, r *Report) {
 			mark(s)
 		}
 		var bad []string
-		var publish []*ssa.Call
-		Instrs(fn, func(in ssa.Instruction) {
+		var publish []DeepInstr
+		// the file operations may sit in fn or in module helpers fn hands the paths to
+		live := func(d DeepInstr, v ssa.Value) bool { return isM[ArgForParam(d.Path, v)] }
+		InstrsDeep(fn, 2, func(d DeepInstr) {
+			in := d.In
 			cc := CallOf(in)
 			if cc == nil {
 				return
 			}
 			name := CalleeName(cc)
-			arg := func(i int) bool { return i < len(cc.Args) && isM[cc.Args[i]] }
+			arg := func(i int) bool { return i < len(cc.Args) && live(d, cc.Args[i]) }
 			switch {
 			case name == "os.Rename":
 				if arg(0) {
 					bad = append(bad, fmt.Sprintf("os.Rename moves the live config file away at %s: a kill before the next step leaves no config file, and start-up then creates an empty one (all settings lost)", p.InstrPos(in)))
 				}
 				if arg(1) {
-					if call, ok := in.(*ssa.Call); ok {
-						publish = append(publish, call)
+					if _, ok := in.(*ssa.Call); ok {
+						publish = append(publish, d)
 					}
 				}
 			case name == "os.Remove" || name == "os.RemoveAll" || name == "os.Create" || name == "os.Truncate" || name == "os.WriteFile":
@@ -143,26 +146,42 @@ func c16R1R2(p *Prog, r *Report) {
 		if len(publish) == 0 {
 			r.Bad("C16.R2", "publishing rename in "+FuncName(fn), p.Pos(fn.Pos()), "no os.Rename(<temporary>, <live config>) publishes the new configuration atomically")
 		}
-		for _, ren := range publish {
-			src := ren.Call.Args[0]
+		for _, rd := range publish {
+			ren := rd.In.(*ssa.Call)
+			src := ArgForParam(rd.Path, ren.Call.Args[0])
 			good := false
 			msg := "the source of the publishing rename is not the file written by a dominating, error-checked viper.WriteConfigAs"
-			Instrs(fn, func(in ssa.Instruction) {
-				w, ok := in.(*ssa.Call)
-				if !ok || !strings.HasPrefix(CalleeName(&w.Call), viperPkg+".WriteConfigAs") || w.Call.Args[0] != src {
+			InstrsDeep(fn, 2, func(wd DeepInstr) {
+				w, ok := wd.In.(*ssa.Call)
+				if !ok || !strings.HasPrefix(CalleeName(&w.Call), viperPkg+".WriteConfigAs") || ArgForParam(wd.Path, w.Call.Args[0]) != src {
 					return
 				}
-				if !InstrDominates(w, ren) {
+				if !DeepDominates(wd, rd) {
 					return
 				}
-				// error checked: the rename lies on the err == nil side
-				for _, ci := range controllingIfs(ren.Block()) {
-					bo, ok := ci.If.Cond.(*ssa.BinOp)
-					if !ok || bo.X != ssa.Value(w) {
-						continue
+				// the values that stand for the writer's error: the call itself and the calls of
+				// helpers that return it unchanged
+				errVals := map[ssa.Value]bool{w: true}
+				for i := len(wd.Path) - 1; i >= 0; i-- {
+					hc, ok := wd.Path[i].(*ssa.Call)
+					if !ok {
+						break
 					}
-					if (bo.Op == token.NEQ && ci.Branch == 1) || (bo.Op == token.EQL && ci.Branch == 0) {
-						good = true
+					if rv := singleReturn(hc.Call.StaticCallee()); rv == nil || !errVals[rv] {
+						break
+					}
+					errVals[hc] = true
+				}
+				// error checked: the rename (or the call that leads to it) lies on the err == nil side
+				for _, at := range append([]ssa.Instruction{ren}, rd.Path...) {
+					for _, ci := range controllingIfs(at.Block()) {
+						bo, ok := ci.If.Cond.(*ssa.BinOp)
+						if !ok || !errVals[bo.X] {
+							continue
+						}
+						if (bo.Op == token.NEQ && ci.Branch == 1) || (bo.Op == token.EQL && ci.Branch == 0) {
+							good = true
+						}
 					}
 				}
 				if !good {
